@@ -636,6 +636,22 @@ def c13s(tapes, params):
     s.stall_choices = (0.002, 0.05, 0.3, 1.1, 2.5)
     s.stall_chance = (2, 3)
     s._arm_preempt()
+    # the connectors' own locks (created while the run goes on) are scheduling points here, and a
+    # poller that has just released one is held back or stalled in 1 of 4 releases
+    s.unlock_hold = (1, 3)
+    s.unlock_budget = sch.choice([0, 1, 2, 3], 'ubudget')      # stalls after a release: a few per run, spread out
+    s.unlock_stall = (1, sch.choice([2, 6, 15], 'ustallden'))
+
+    class SharedProxy(ga.proxy):
+        """The proxy as deployed, with one harness-side addition: the lock of each gateway connection it
+        creates is marked as a scheduling point (acquire/release yield; a release may be followed by a
+        hold-back or a stall of the releasing poller)."""
+        def open_gateway(self):
+            super(SharedProxy, self).open_gateway()
+            gw = self.gateway
+            if gw is not None and not gw.frame.lock.shared:
+                gw.frame.lock.shared = True
+                gw.frame.lock.name = 'gateway'
 
     def plan(idx, c2s, s2c, peer):
         EnipWorld._conn_plan(w, idx, c2s, s2c, peer)
@@ -679,7 +695,7 @@ def c13s(tapes, params):
         preload_unique(w)
         tags = sorted(w.model.tags.values(), key=lambda t: t.name)
         heal_at[0] = w.sched.now + g.choice([2.0, 5.0, 10.0], 'heal')
-        via = ga.proxy('127.0.0.1', port=PORT, timeout=tmo, depth=depth, multiple=multiple, identity_default='sim')
+        via = SharedProxy('127.0.0.1', port=PORT, timeout=tmo, depth=depth, multiple=multiple, identity_default='sim')
         same_n = g.chance(1, 2, 'samen')
         n0 = 1 + g.draw(3, 'n0')
         pollers = []
